@@ -1218,7 +1218,7 @@ class DictTerm(PreTerm):
             if (
                 hasattr(v, "item")
                 and hasattr(v, "dtype")
-                and (not hasattr(v, "__len__"))
+                and (getattr(v, "ndim", 0) == 0)
                 and (v.dtype.kind in "biuf")
             ):
                 return v.item()  # any numpy number (int32, float32, ...); dates and durations stay what they are
